@@ -94,7 +94,7 @@ def run(res, tier, rng):
     n_exh = len(cases)
     res.exhaustive = True
     real = ["lemonde", "fr", "co", "uk", "blog", "www", "Example", "COM", "xn--caf-dma", "café", "CAFÉ", "xn--80ak6aa92e",
-            "münchen", "xn--mnchen-3ya", "a", "b", "m", "api", "xn--", "ÉCOLE", "xn--cole-9oa", "straße", "strasse", "xn--strae-oqa", "ﬁn", "fin"]
+            "münchen", "xn--mnchen-3ya", "a", "b", "m", "api", "xn--", "ÉCOLE", "xn--cole-9oa", "straße", "strasse", "xn--strae-oqa", "ﬁn", "fin", "local", "localdomain", "nas", "photos", "internal"]
     nrand = 1500 if tier == "quick" else 20000
     for _ in range(nrand):
         n = rng.randint(1, 10)
